@@ -447,7 +447,8 @@ func (r *coreRun) runThread(ts ThreadSpec) {
 				ni.prefix, ni.tags = qualify(p.prefix, r.nm(op.Name)), p.tags
 			}
 			ni.s = ns
-			ni.inert = ns == tally.NoopScope
+			// inert: the no-op scope itself, or anything derived from it (the no-op scope is a root of its own with a null reporter)
+			ni.inert = ns == tally.NoopScope || p.inert
 			ni.obj = r.objID(ns)
 			hs[op.H] = ni
 			r.log(M{"e": "subret", "t": ts.Name, "o": ni.obj, "id": renderID(ni.prefix, ni.tags), "inert": ni.inert})
